@@ -177,8 +177,13 @@ def lexLe : Bytes → Bytes → Bool
 /-- the sort key `(-len(c), c)` -/
 def cidLe (a b : Bytes) : Bool := b.length < a.length || (a.length == b.length && lexLe a b)
 
-/-- `sorted(cids, key=lambda c: (-len(c), c))` -/
-def sortCids (cids : List Bytes) : List Bytes := cids.mergeSort cidLe
+def insertCid (c : Bytes) : List Bytes → List Bytes
+  | [] => [c]
+  | d :: ds => if cidLe c d then c :: d :: ds else d :: insertCid c ds
+
+/-- `sorted(cids, key=lambda c: (-len(c), c))` (the key is a total order on distinct byte strings, so the sorting algorithm
+    does not matter: `Lemmas.MainLoop.sortCids_perm`) -/
+def sortCids (cids : List Bytes) : List Bytes := cids.foldr insertCid []
 
 /-- `len(cid) > 0 and cid == packet_payload[1:1 + len(cid)]` -/
 def cidPrefixOf (payload cid : Bytes) : Bool :=
